@@ -1,10 +1,15 @@
-"""C20 - see lib/srvprop.py (family table, generators) and spec/H2Server.tla, spec/H2ServerTrace.tla."""
-import srvprop
+"""C20 - server half: lib/srvprop.py + spec/H2Server.tla + spec/H2ServerTrace.tla;
+client half: lib/cliprop.py + spec/H2ClientTrace.tla."""
+import srvprop, cliprop
 
 
 def run(ctx):
     srvprop.run(ctx, 'C20')
+    cliprop.run(ctx, 'C20', id_offset=1000000)
 
 
 def replay(ctx, finding):
-    srvprop.replay(ctx, 'C20', finding)
+    if finding.get('kind') == 'cli':
+        cliprop.replay(ctx, 'C20', finding)
+    else:
+        srvprop.replay(ctx, 'C20', finding)
